@@ -135,6 +135,8 @@ Proof.
     inversion H; subst; cbn; split; congruence.
   - intros k body IH _ _ He. discriminate.
   - intros _ _ _ st c st' H. discriminate.
+  - intros a b n o m _ Hw. discriminate.
+  - intros q ip a b n _ Hw. discriminate.
   - intros _ _ _ st c st' H. inversion H; subst. auto.
   - intros s IHs b IHb Hn Hp He st c st' H. cbn [bnoreg bplain bnoepr] in *.
     apply andb_prop in Hn. destruct Hn as [Hn1 Hn2]. apply andb_prop in Hp. destruct Hp as [Hp1 Hp2].
@@ -332,6 +334,8 @@ Proof.
     destruct S3 as (_ & Q3 & _). inv_ok H. cbn. congruence.
   - intros k body IH loc loc' Hq. discriminate.
   - intros loc loc' Hq. discriminate.
+  - intros a b n o m loc loc' Hq. discriminate.
+  - intros q ip a b n loc loc' Hq. discriminate.
   - intros loc loc' Hq _ _ st c st' base Lq H I E <-. inv_ok Hq. inv_ok H. eauto.
   - intros s IHs b IHb loc loc' Hq Hp He st c st' base Lq H I E <-. cbn [qb] in Hq.
     destruct (qs s (map fst Lq)) as [l1|] eqn:E1; [|discriminate]. cbn [bplain bnoepr] in Hp, He.
